@@ -734,3 +734,44 @@ def check_backward_word(ctx, rep, f):
     inits = [d for d in single_def(f, w) if isinstance(d, ast.Constant)]
     if inits and inits[0].value == '':
         rep.holds(RULE + '.M8', f, 'word = \'\'', 'the run ends with nothing unread', nontrivial=False)
+
+
+# ---- generator / checker agreement of the reverse exercise ----------------------------------------------------------------
+
+def check_reverse_agreement(ctx, rep, f_gen, f_chk, rule='R-AGREE.reverse'):
+    """the checker of the reverse exercise demands structure, not only the language: the initial state of the answer is
+    not a state of the DFA (`answer.q0 in D.Q` -> warning) and its accepting set is {D.q0}.  The generator must meet
+    each demand on every path, or the library's own answer is not graded OK.  The demands are read from the checker; a
+    demand that the checker no longer makes is not imposed."""
+    chk_src = [u(n) for n in walk_no_nested(f_chk.node) if isinstance(n, ast.If)]
+    wants_fresh_q0 = any(isinstance(n, ast.If) and isinstance(n.test, ast.Compare) and len(n.test.ops) == 1 and isinstance(n.test.ops[0], ast.In)
+                         and u(n.test.left).endswith('.q0') and u(n.test.comparators[0]).endswith('.Q') for n in walk_no_nested(f_chk.node))
+    wants_f = any(isinstance(n, ast.If) and isinstance(n.test, ast.Compare) and len(n.test.ops) == 1 and isinstance(n.test.ops[0], ast.NotEq)
+                  and u(n.test.left).endswith('.F') and isinstance(n.test.comparators[0], ast.Set) and len(n.test.comparators[0].elts) == 1
+                  and u(n.test.comparators[0].elts[0]).endswith('.q0') for n in walk_no_nested(f_chk.node))
+    calls = ctor_call(ctx, f_gen, 'NFA')
+    if not calls:
+        rep.undecided(rule, f_gen, 'def ' + f_gen.name, 'constructor call of the result not found')
+        return 0
+    p = f_gen.pos_params[0].arg
+    n = 0
+    for c in calls:
+        if wants_fresh_q0:
+            q0 = ctor_arg(ctx, c, 'NFA', 'q0')
+            defs = single_def(f_gen, q0.id) if isinstance(q0, ast.Name) else [q0]
+            bad = [d for d in defs if not (isinstance(d, ast.Call) and (ctx.callee_name(f_gen, d) or '').startswith('fresh') and d.args and u(resolve_alias(f_gen, d.args[0])) == p + '.Q')]
+            n += 1
+            if defs and not bad:
+                rep.holds(rule, f_gen, c, 'the initial state is drawn fresh for {}.Q on every path, as the checker of the exercise demands'.format(p))
+            else:
+                rep.violates(rule, f_gen, bad[0] if bad else c, 'on some path the initial state of the reversed automaton is `{}`, not a state drawn fresh for {}.Q: the checker of the exercise '
+                             '({}: `answer.q0 in D.Q`) answers "a new initial state should be introduced" to the library\'s own answer'.format(u(bad[0]) if bad else '?', p, f_chk.name))
+        if wants_f:
+            F = ctor_arg(ctx, c, 'NFA', 'F')
+            Fr = resolve_alias(f_gen, F) if F is not None else None
+            n += 1
+            if isinstance(Fr, ast.Set) and len(Fr.elts) == 1 and u(Fr.elts[0]) == p + '.q0':
+                rep.holds(rule, f_gen, F, 'the accepting set is {{{}.q0}}, as the checker of the exercise demands'.format(p))
+            else:
+                rep.violates(rule, f_gen, F if F is not None else c, 'the accepting set of the reversed automaton is `{}`, the checker of the exercise demands exactly {{{}.q0}}'.format(u(Fr) if Fr is not None else '?', p))
+    return n
